@@ -27,27 +27,20 @@ EXPLANATION = (
     "port mixes and schedules."
 )
 ASSUMPTIONS = ["CPython ast parses /repo's source as the interpreter would"]
-MIN_INSTANCES = {"R-11a": 5, "R-11b": 6, "R-11c": 6, "R-11d": 4}
+MIN_INSTANCES = {"R-11a": 4, "R-11b": 6, "R-11c": 6, "R-11d": 4}
 
 
 def r11a(model, ctx):
     R = "R-11a"
-    fw = model.func(f"{PYSIM}::_PyMemoryState.write")
-    top = fw.body
-    ok = len(top) == 1 and isinstance(top[0], ast.If) and unparse(top[0].test) == "addr in range(self.memory.depth)" and not top[0].orelse
-    ctx.check(ok, R, "_PyMemoryState.write:bounds", "the whole body is under `addr in range(depth)`",
-              "a write to an address beyond the depth must change nothing: the whole body of write() must be guarded by "
-              "`addr in range(self.memory.depth)`", f"{PYSIM}:{fw.lineno}")
-    t = unparse(fw)
-    ok = "self.write_queue[addr] = value" in t and "self.pending.add(self)" in t
-    ctx.check(ok, R, "_PyMemoryState.write:queues", "queues the merged row and marks the memory pending",
-              "write() must store the merged row in write_queue and mark the memory pending", f"{PYSIM}:{fw.lineno}")
-    fr = model.func(f"{PYSIM}::_PyMemoryState.read")
-    paths = [p for p in run_paths(fr.body) if p.how == "return"]
-    got = {(tuple((unparse(c), pol) for c, pol in p.conds), unparse(p.ret)) for p in paths}
-    want = {((("addr in range(self.memory.depth)", True),), "self.data[addr]"), ((("addr in range(self.memory.depth)", False),), "0")}
-    ctx.check(got == want, R, "_PyMemoryState.read", "committed row inside the depth, 0 outside",
-              f"read() must return self.data[addr] for addresses inside the depth and 0 outside; found {sorted(got)}", f"{PYSIM}:{fr.lineno}")
+    from ..engine import refsem
+    fw, paths = refsem.method_paths(model, f"{PYSIM}::_PyMemoryState.write")
+    refsem.compare(ctx, R, "_PyMemoryState.write", f"{PYSIM}:{fw.lineno}", "_PyMemoryState.write", paths, [c02.REF_MEMORY_WRITE],
+                   fact="bounds-guarded, queue seeded from data, masked merge into the pending row, sign fold, marks pending",
+                   why="A write beyond the depth must change nothing; the merged row must be queued and the memory marked pending.")
+    fr, paths = refsem.method_paths(model, f"{PYSIM}::_PyMemoryState.read")
+    refsem.compare(ctx, R, "_PyMemoryState.read", f"{PYSIM}:{fr.lineno}", "_PyMemoryState.read", paths, [c02.REF_MEMORY_READ],
+                   fact="committed row inside the depth, 0 outside",
+                   why="read() must return self.data[addr] for addresses inside the depth and 0 outside.")
     fc = model.func(f"{PYSIM}::_PyMemoryState.commit")
     t = unparse(fc)
     ok = "for (addr, value) in self.write_queue.items()" in t.replace("for addr, value in", "for (addr, value) in") and \
@@ -57,15 +50,12 @@ def r11a(model, ctx):
     ok = "changed = True" in t and "if self.data[addr] != value" in t and isinstance(fc.body[-1], ast.Return) and unparse(fc.body[-1].value) == "changed"
     ctx.check(ok, R, "_PyMemoryState.commit:changed", "reports whether a row changed", "commit() must report whether any row changed "
               "(so the design is re-evaluated)", f"{PYSIM}:{fc.lineno}")
-    # signed rows are stored sign-folded at width-1 (R-01k instance)
-    ifs = [s for s in ast.walk(fw) if isinstance(s, ast.If) and unparse(s.test) == "self.shape.signed"]
-    ok = len(ifs) == 1
-    if ok:
-        inner = ifs[0].body[0]
-        ok = isinstance(inner, ast.If) and unparse(inner.test) == "value & 1 << self.shape.width - 1" and \
-            unparse(inner.body[0]) == "value |= -1 << self.shape.width" and unparse(inner.orelse[0]) == "value &= (1 << self.shape.width) - 1"
-    ctx.check(ok, "R-01k", "_PyMemoryState.write:sign-fold", "bit width-1 decides; fold with -1 << width / mask(width)",
-              "signed memory rows must be normalised by testing bit width-1 and folding with the same width", f"{PYSIM}:{fw.lineno}")
+    # signed rows are stored sign-folded at width-1 (R-01k instance): part of the write() summary above; the separate rule
+    # id is kept for the cross-reference from C01
+    fw, paths = refsem.method_paths(model, f"{PYSIM}::_PyMemoryState.write")
+    refsem.compare(ctx, "R-01k", "_PyMemoryState.write:sign-fold", f"{PYSIM}:{fw.lineno}", "_PyMemoryState.write", paths,
+                   [c02.REF_MEMORY_WRITE], fact="bit width-1 decides; fold with -1 << width / mask(width)",
+                   why="Signed memory rows must be normalised by testing bit width-1 and folding with the same width.")
 
 
 def r11b(model, ctx):
